@@ -173,7 +173,10 @@ Definition search (expr : list N) (p : Z) (add dbl : fcost) : outcome exit_class
     or_fail (Calc.eval expr) (fun n =>
     if n <? 1 then Ok Exit1                                       (* target must be positive *)
     else
-      obind (par_execute p (ens n)) (fun rs =>
+      (* as := ensemble.Ensemble(); concurrency := cmd.concurrency; if concurrency > len(as) { concurrency = len(as) } *)
+      let results := ens n in
+      let concurrency := Z.min p (Z.of_nat (length results)) in
+      obind (par_execute concurrency results) (fun rs =>
       or_fail (pick_best dbl add 0 rs 0 (FInf false)) (fun best =>
         match nth_error rs best with                              (* b := rs[best] *)
         | None => Panic ($"index")
@@ -210,18 +213,21 @@ Definition dump_eval (p : list op) (ch : list Z) : outcome (list N) :=
     Ok (body ++ $"total: " ++ print_nat (doubles + adds) ++ [tab] ++ $"doubles: " ++ [tab] ++ print_nat doubles
         ++ $" adds: " ++ print_nat adds ++ [nl])).
 
-(* what each command writes to standard output when it succeeds *)
-Definition eval_out (src : list N) : outcome (list N) :=
-  obind (load_m src) (fun r => let '(_, p, ch) := r in dump_eval p ch).
+(* what each command writes to standard output when it succeeds: on the syntax tree, and from the text *)
+Definition eval_tree (c : script) : outcome (list N) :=
+  obind (load_tree c) (fun r => let '(_, p, ch) := r in dump_eval p ch).
 
-Definition fmt_out (b : bool) (src : list N) : outcome (list N) :=
-  obind (parse src) (fun s =>
-    if b then obind (translate s) (fun r => obind (build_named r) (fun s' => Ok (print_script s')))
-    else Ok (print_script s)).
+Definition fmt_tree (b : bool) (s : script) : outcome (list N) :=
+  if b then obind (translate s) (fun r => obind (build_named r) (fun s' => Ok (print_script s')))
+  else Ok (print_script s).
 
 (* gen.Execute: parse, PrepareData, LoadTemplate (unknown -type name = error), Generate *)
-Definition gen_out (typ src : list N) : outcome (list N) :=
-  obind (parse src) (fun s => obind (prepare default_cfg s) (render typ)).
+Definition gen_tree (typ : list N) (s : script) : outcome (list N) :=
+  obind (prepare default_cfg s) (render typ).
+
+Definition eval_out (src : list N) : outcome (list N) := obind (parse src) eval_tree.
+Definition fmt_out (b : bool) (src : list N) : outcome (list N) := obind (parse src) (fmt_tree b).
+Definition gen_out (typ src : list N) : outcome (list N) := obind (parse src) (gen_tree typ).
 
 (* ------------------------------------------------------------------------------------------
    the command line *)
